@@ -17,6 +17,7 @@ Keys are lower-case hex, the empty key is `-`; a pair is `<hexkey>:<value>`.
 import LinVerif.Util.Proto
 import LinVerif.Model.Louds
 import LinVerif.Model.TrieBucket
+import LinVerif.Generated.C20
 
 namespace LinVerif.Driver.C20
 open LinVerif LinVerif.TrieTree LinVerif.Louds LinVerif.TrieBucket
@@ -72,6 +73,10 @@ def splitBar (ws : List String) : List (List String) :=
 
 def sortNats (xs : List Nat) : List Nat := xs.mergeSort (fun a b => a ≤ b)
 def sortPairsByKey (xs : List KV) : List KV := xs.mergeSort kvLe
+
+/-- the source variants the models follow (regenerated from /repo on every run) -/
+def eon : Bool := Generated.C20.getChecksEndOfNode
+def stepLB : Bool := Generated.C20.seekStepsToLowerBound
 
 structure St where
   tree : Option Node := none
@@ -176,18 +181,18 @@ def step (st : St) (ws : List String) : St × String :=
   | ["get", k] =>
     match parseKey k with
     | none => (st, "bad-op")
-    | some key => withTree st (fun t => showOpt (getNode t key))
+    | some key => withTree st (fun t => showOpt (getNode eon t key))
   | ["lget", k] =>
     match parseKey k with
     | none => (st, "bad-op")
-    | some key => withFlat st (fun f => showOpt (loudsGet f key))
+    | some key => withFlat st (fun f => showOpt (loudsGet eon f key))
   | ["iter"] => withTree st (fun t => showPairs (iter t))
   | ["liter"] => withFlat st (fun f => showPairs (loudsIter f))
   | ["riter"] => withTree st (fun t => showPairs (iter t).reverse)
   | ["seek", k] =>
     match parseKey k with
     | none => (st, "bad-op")
-    | some key => withTree st (fun t => showSeek (seek t key))
+    | some key => withTree st (fun t => showSeek (seekCur stepLB t key))
   | ["seeklb", k] =>
     match parseKey k with
     | none => (st, "bad-op")
@@ -195,7 +200,7 @@ def step (st : St) (ws : List String) : St × String :=
   | ["prefix", k] =>
     match parseKey k with
     | none => (st, "bad-op")
-    | some key => withTree st (fun t => showPairs (prefixIter t key))
+    | some key => withTree st (fun t => showPairs (prefixIter stepLB t key))
   | "bv" :: blocks =>
     match blocks.mapM parseBits with
     | none => (st, "bad-op")
@@ -236,17 +241,17 @@ def step (st : St) (ws : List String) : St × String :=
   | ["bget", k] =>
     match parseKey k with
     | none => (st, "bad-op")
-    | some key => withBucket st (fun ts => showOpt (bucketGet ts key))
+    | some key => withBucket st (fun ts => showOpt (bucketGet eon ts key))
   | ["bvalues"] =>
     withBucket st (fun ts => showNats (sortNats ((ts.flatMap (fun t => iter t)).map (·.2))))
   | ["bpairs"] =>
-    withBucket st (fun ts => showPairs (sortPairsByKey (bucketPrefix ts [])))
+    withBucket st (fun ts => showPairs (sortPairsByKey (bucketPrefix stepLB ts [])))
   | ["bsizes"] =>
     withBucket st (fun ts => showNats (sortNats (ts.map trieSize)))
   | ["bsuggest", k, lim] =>
     match parseKey k, lim.toNat? with
     | some key, some limit =>
-      withBucket st (fun ts => showKeys (((sortPairsByKey (bucketPrefix ts key)).map (·.1)).take (max limit 1)))
+      withBucket st (fun ts => showKeys (((sortPairsByKey (bucketPrefix stepLB ts key)).map (·.1)).take (max limit 1)))
     | _, _ => (st, "bad-op")
   | ["blike", p, mode, sub] =>
     match parseKey p, parseKey sub with
@@ -255,7 +260,7 @@ def step (st : St) (ws : List String) : St × String :=
       | none => (st, "bad-op")
       | some _ =>
         withBucket st (fun ts =>
-          showNats (sortNats (((bucketPrefix ts pre).filter (fun kv => (likeCheck mode kv.1 subKey).getD false)).map (·.2))))
+          showNats (sortNats (((bucketPrefix stepLB ts pre).filter (fun kv => (likeCheck mode kv.1 subKey).getD false)).map (·.2))))
     | _, _ => (st, "bad-op")
   | ["bmerge", bsz] =>
     match bsz.toNat?, st.bucket with
@@ -263,7 +268,7 @@ def step (st : St) (ws : List String) : St × String :=
     | some 0, _ => (st, "bad-op")
     | _, none => (st, "no-bucket")
     | some blockSize, some ts =>
-      match mergeTries blockSize ts with
+      match mergeTries stepLB blockSize ts with
       | some r => ({ st with bucket := some r }, s!"ok tries={r.length}")
       | none => ({ st with bucket := none }, "panic")
   | _ => (st, "bad-op")
